@@ -60,8 +60,14 @@ def render_geom(t, parent=None):
     return (' ' if k == '*' else ':').join(parts)
 
 
+PLUS_SPELLING = [False]      # when set, positive transformation entries are written with an explicit '+'
+
+
 def num(x):
-    return repr(x) if isinstance(x, float) else str(x)
+    text = repr(x) if isinstance(x, float) else str(x)
+    if PLUS_SPELLING[0] and x > 0:
+        text = '+' + text
+    return text
 
 
 def tr_params(tr, spell='12'):
@@ -180,6 +186,14 @@ def tr_number(deck, tr):
 
 def concretise(deck, title='generated by vt4'):
     """MCNP input text of an abstract deck."""
+    PLUS_SPELLING[0] = bool(deck.get('plusspell'))
+    try:
+        return _concretise(deck, title)
+    finally:
+        PLUS_SPELLING[0] = False
+
+
+def _concretise(deck, title):
     deck = dict(deck)
     deck['_trtable'] = []
     lines = [title]
@@ -374,3 +388,44 @@ def moved_points(pts2, phi):
         u = [P[0] / 2.0, P[1] / 2.0, P[2] / 2.0]
         out.append(tuple(o[r] + sum(R[r][c] * u[c] for c in range(3)) for r in range(3)))
     return out
+
+
+# ---------------------------------------------------------------------------
+# renumbering: the meaning of a deck does not depend on the numbers chosen for cells, surfaces, universes
+
+def renumber(deck, smap=None, cmap=None, umap=None):
+    """Consistently renumbered copy of a normalised deck (maps are functions int -> int, injective)."""
+    smap = smap or (lambda n: n)
+    cmap = cmap or (lambda n: n)
+    umap = umap or (lambda n: n)
+
+    def tree(t):
+        k = t[0]
+        if k == 'S':
+            return ['S', (1 if t[1] > 0 else -1) * smap(abs(t[1])), t[2]]
+        if k in ('C', 'R'):
+            return [k, cmap(t[1])]
+        if k == 'N':
+            return ['N', tree(t[1])]
+        return [k] + [tree(x) for x in t[1:]]
+    d = dict(deck)
+    d['surfs'] = [dict(s, n=smap(s['n'])) for s in deck['surfs']]
+    cells = []
+    for c in deck['cells']:
+        c2 = dict(c, n=cmap(c['n']), geom=tree(c['geom']), u=umap(c['u']) if c['u'] else 0,
+                  fill=umap(c['fill']) if c['fill'] else 0)
+        if c.get('lunivs'):
+            c2['lunivs'] = [umap(u) if u else 0 for u in c['lunivs']]
+        if c.get('like'):
+            c2['like'] = cmap(c['like'])
+        cells.append(c2)
+    d['cells'] = cells
+    return d
+
+
+RENUMBERINGS = [
+    None,
+    (lambda n: n + 990, lambda n: n + 994, lambda n: n + 40),          # surfaces and cells straddle 1000
+    (lambda n: 7 * n + 3, lambda n: 100 - n, lambda n: n + 1),         # cells in decreasing order
+    (lambda n: n + 20, lambda n: 1000 * n + 1, lambda n: 10 * n),      # large, sparse cell numbers
+]
